@@ -23,6 +23,7 @@ DECIDES = (
     "dimension (units) type check of every relation body: sizes and length carry dimension L, count and ratios are dimensionless, "
     "sums/comparisons need equal dimensions, logs/exponents dimensionless operands, and the returned dimension is that of the "
     "output named by the function (C03.DIMENSIONS)."
+    " every 'ratio == 1' switch of the relations is the same purely absolute test against TOL, no relative closeness test (numpy isclose/allclose defaults) anywhere in the grading modules except the two length-uniformity tests (C03.UNIT-RATIO-TESTS); a chop re-created for another edge hands exactly two quantities to the closure (C03.COPY-WELL-POSED = C04.PRESERVE-CARRIED)."
 )
 NOT_DECIDED = (
     "that the formulas are the geometric-progression identities, rounding of counts, behaviour near ratio 1, finiteness - identities "
